@@ -384,4 +384,43 @@ theorem island_steps (cfg : TagCfg) (hsm : cfg.svg ≠ cfg.math) (i : Island) (h
     (Steps.append (fseq_steps cfg hsm i.ns i.children h2 (s.enterNs i.ns.toNs).1 hi1 hs rfl)
       (Steps.cons (step_rootEnd cfg s hi hs i.ns i.name h1) hc (Steps.nil s)))
 
+
+/-- a top-level HTML tag (namespace stack `[Html]`), non-strict -/
+theorem step_top (cfg : TagCfg) (s : Sim) (hs : s.strict = false) (hst : s.nsStack = [.html])
+    (hc : s.currentNs = .html) (ev : TagEvent)
+    (hev : ev.view.isStart = true → ev.hash ≠ cfg.svg ∧ ev.hash ≠ cfg.math) :
+    ∃ fb, s.stepTag cfg ev = .ok (s, fb) := by
+  unfold Sim.stepTag
+  by_cases hv : ev.view.isStart = true
+  · obtain ⟨h1, h2⟩ := hev hv
+    simp only [hv, if_true]
+    rw [start_nonstrict cfg s hs]
+    have : startCore cfg s ev.hash = .ok (s, textTypeAdjustment cfg ev.hash) := by
+      simp [startCore, h1, h2, hc]
+    rw [this]
+    exact ⟨_, finish_ok _ _ _ (textType_fbOk cfg s _).2⟩
+  · have hv' : ev.view.isStart = false := by simpa using hv
+    simp only [hv', Bool.false_eq_true, if_false]
+    rw [end_nonstrict cfg s hs]
+    have : endCore cfg s ev.hash = some (s, .none) := by
+      simp [endCore, hc, Sim.checkIntegrationPointExit, hst]
+    rw [this]
+    exact ⟨_, rfl⟩
+
+theorem doc_steps (cfg : TagCfg) (hsm : cfg.svg ≠ cfg.math) (d : List DocItem)
+    (hok : ∀ x ∈ d, x.Ok cfg) : Steps cfg (Sim.new false) (docFlat d) (Sim.new false) := by
+  induction d with
+  | nil => exact Steps.nil _
+  | cons x d ih =>
+    have ih' := ih (fun y hy => hok y (by simp [hy]))
+    have hx := hok x (by simp)
+    unfold docFlat at ih' ⊢
+    rw [List.flatMap_cons]
+    refine Steps.append ?_ ih'
+    cases x with
+    | tag ev =>
+      obtain ⟨fb, he⟩ := step_top cfg (Sim.new false) rfl rfl rfl ev hx
+      exact Steps.cons he rfl (Steps.nil _)
+    | island i => exact island_steps cfg hsm i hx (Sim.new false) (inv_new false) rfl rfl
+
 end LolHtml.Lemmas.Island
